@@ -934,8 +934,9 @@ impl Model<Rust> {
             (None, None) | (Some(0), None) | (Some(0), Some(i64::MAX)) | (None, Some(i64::MAX)) => {
                 RustType::U64(Range(None, None, true))
             }
-            (min, max) if min.unwrap_or_default() >= 0 && max.unwrap_or_default() >= 0 => {
-                RustType::U64(Range(min.map(|v| v as u64), max.map(|v| v as u64), true))
+            // no lower bound (MIN) permits negative values
+            (Some(min), max) if *min >= 0 && max.unwrap_or_default() >= 0 => {
+                RustType::U64(Range(Some(*min as u64), max.map(|v| v as u64), true))
             }
             (min, max) => RustType::I64(Range(
                 min.unwrap_or(i64::MIN),
